@@ -49,6 +49,14 @@ def step (roots : List Entries) (w : List String) : List Entries × List String 
         | none => (roots, ["nodir"])
       | none => (roots, ["bad-op"])
     | none => (roots, ["bad-op"])
+  | ["walkpkgs", i, path] =>
+    match i.toNat? with
+    | some i => match roots[i]? with
+      | some r => match descend r (comps path "/") with
+        | some pkg => (roots, [" ".intercalate ((walkPkgs pkg).map fun p => "/".intercalate p)])
+        | none => (roots, ["nodir"])
+      | none => (roots, ["bad-op"])
+    | none => (roots, ["bad-op"])
   | _ => (roots, ["bad-op"])
 
 end LPVerif.Driver.FS
